@@ -85,7 +85,7 @@ package cache
 //@   ensures recentTrim(rdErr == nil, sid(rec), tns(nowV)) ==> err == nil && fsExists == old(fsExists) && fsMtime == old(fsMtime) && fsBytes == old(fsBytes) && fsSize == old(fsSize) && fsData == old(fsData)
 
 // ---- C05: lookups return what the files say or not-found, and never panic ----
-//@ property C05: (*Cache).get, get$1, (*Cache).Get, (*Cache).GetBytes, (*Cache).GetFile, (*Cache).OutputFile, (*Cache).fileName, (*Cache).used, (*Cache).put, (*Cache).copyFile, (*Cache).putIndexEntry
+//@ property C05: (*Cache).get, get$1, (*Cache).Get, (*Cache).GetBytes, (*Cache).GetFile, (*Cache).OutputFile, (*Cache).fileName, (*Cache).used, (*Cache).put, (*Cache).copyFile, (*Cache).putIndexEntry, (*Cache).Put, (*Cache).PutNoVerify, (*Cache).PutBytes
 
 //@ func get$1
 //@   names (e, err)
@@ -135,8 +135,8 @@ package cache
 //@   ensures err == nil && old(failBudget) == 0 ==> fsMtime[file] > old(clock) - hour()
 
 // ---- C11 / C12: the store side ----
-//@ property C12: (*Cache).put, (*Cache).copyFile, (*Cache).putIndexEntry, (*Cache).fileName, (*Cache).GetFile, (*Cache).GetBytes, (*Cache).Get, (*Cache).get, get$1, (*Cache).used, (*Cache).OutputFile
-//@ property C11: (*Cache).putIndexEntry, (*Cache).copyFile, (*Cache).put, (*Cache).get, get$1, (*Cache).GetBytes, (*Cache).GetFile, (*Cache).used, (*Cache).fileName, (*Cache).OutputFile, (*Cache).Get
+//@ property C12: (*Cache).put, (*Cache).copyFile, (*Cache).putIndexEntry, (*Cache).fileName, (*Cache).GetFile, (*Cache).GetBytes, (*Cache).Get, (*Cache).get, get$1, (*Cache).used, (*Cache).OutputFile, (*Cache).Put, (*Cache).PutNoVerify, (*Cache).PutBytes
+//@ property C11: (*Cache).putIndexEntry, (*Cache).copyFile, (*Cache).put, (*Cache).get, get$1, (*Cache).GetBytes, (*Cache).GetFile, (*Cache).used, (*Cache).fileName, (*Cache).OutputFile, (*Cache).Get, (*Cache).Put, (*Cache).PutNoVerify, (*Cache).PutBytes
 
 // cache-local step contracts: truncating to zero or removing a file sets the ghost
 // clean-up flag of its path; sources, hashes and writers are abstract.
@@ -223,3 +223,21 @@ package cache
 //@   at call io.Copy#1: requires gSeekPos[src] == 0
 //@   at call (*cache.Cache).copyFile#1: bind gCopyErr = result
 //@   at call (*cache.Cache).putIndexEntry#1: requires gCopyErr == nil && out == my_out && size == my_size && id == my_id
+
+// The exported store entry points hand their arguments to put unchanged (and PutBytes
+// stores exactly the given bytes), and return put's results.
+//@ extern bytes.NewReader(b) (r)
+//@   modifies new gReaderOf
+//@   ensures r != nil && fresh(r) && gReaderOf[r] == sid(b)
+//@ ghost var gReaderOf (Array Int Int)
+//@ func (*Cache).Put
+//@   requires c != nil
+//@   at call (*cache.Cache).put#1: requires id == my_id && file == my_file
+//@ func (*Cache).PutNoVerify
+//@   requires c != nil
+//@   at call (*cache.Cache).put#1: requires id == my_id && file == my_file
+//@ func (*Cache).PutBytes
+//@   requires c != nil
+//@   at call (*cache.Cache).Put#1: requires id == my_id && gReaderOf[unbox(file)] == sid(data)
+//@   at call (*cache.Cache).Put#1: bind gPutErr = result2
+//@   ensures result == gPutErr
